@@ -175,21 +175,24 @@ CHECKS['C14'] = dict(
         'a forwarding node passes on what it was offered), begun, running and done: a body begins only on an offered message, at most once per node, within the node\'s '
         'concurrency limit, and not after an exception has surfaced; a put that was reported as rejected was not processed; wait_for_all returns only when no body runs '
         'and, in a loss-less graph, everything offered to every body node has been processed. Real graphs (three-node function chains with unlimited / serial / limit-2 / '
-        'lightweight / rejecting nodes, broadcast fan-out with a second external source, a throwing body followed by a second wait and graph::reset) are built on 3 '
-        'logical threads of an all-reserved arena - 3 external putters, graph tasks on the same threads - and run under seeded random and PCT-style priority cooperative '
+        'lightweight / rejecting nodes, broadcast fan-out with a second external source, a throwing body followed by a second wait and graph::reset, an input_node '
+        'source, an async_node completed through its gateway from a thread outside the arena under reserve_wait / release_wait, a limiter feedback cycle) are built on '
+        'logical threads of an all-reserved arena - 2-3 external putters plus one thread that executes graph tasks from the start - and run under seeded random and PCT-style priority cooperative '
         'schedules over every atomic of the graph and the scheduler; the body / put / wait events are validated by TLC (TraceFlow).',
-   note='topologies are a fixed catalogue (not randomised); schedules sampled; async_node gateways, input_node, multifunction and continue nodes and cycles with limiter feedback are not driven; no protocol model of function_input / edge switching yet (trace validation only)',
+   note='topologies are a fixed catalogue (not randomised); schedules sampled; multifunction and continue nodes are not driven; no protocol model of function_input / edge switching yet (trace validation only)',
    technique='TLA+ abstract specification + TLC trace validation of recorded executions of real flow graphs under a cooperative scheduler',
    design='4 (C14)')
 CHECKS['C15'] = dict(
    text='TLC model-checks Limiter (limiter_node critical sections with my_count / my_tries / my_future_decrement, reserve / consume on the predecessor queue, early '
         'decrements, 2-3 concurrent forwarders, thresholds 1-2): un-decremented forwarded messages never exceed the threshold, FIFO, no duplicate. The ordering clauses of '
         'FlowAbs - queue_node: a message put after another put had returned is not forwarded before it; sequencer_node: exactly 0,1,2,... in order; limiter_node: forwarded '
-        'minus decremented stays within the threshold; join_node queueing / reserving: the i-th tuple is the i-th message of every port; key_matching: equal keys, every message '
+        'minus decremented stays within the threshold; priority_queue_node: nothing that was buffered when the serial sink asked for its next item beats the item it gets; '
+        'queue_node reservations (try_reserve / try_release / try_consume / try_get from three threads): nothing lost, nothing taken twice; overwrite_node / write_once_node: '
+        'every successor, also one attached concurrently, ends with the latest / gets exactly the first value; split_node / indexer_node routing; join_node queueing / reserving: the i-th tuple is the i-th message of every port; key_matching: equal keys, every message '
         'used once; the number of complete tuples - are validated by TLC (TraceFlow) on recorded executions of the real nodes fed by 3 external putters (sequence numbers in 4 '
         'permutations, thresholds 1 and 2 with the decrement sent from the successor body, ports of unequal length) and observed at a serial sink, under seeded random / PCT '
         'cooperative schedules.',
-   note='schedules sampled; priority_queue_node, buffer_node reservation, overwrite / write_once, split and indexer nodes are not driven yet; item_buffer ring arithmetic is exercised through queue / sequencer only',
+   note='schedules sampled; buffer_node (unordered) and key_matching with more than two ports are not driven; item_buffer ring arithmetic is exercised through queue / sequencer / priority nodes only',
    technique='TLA+ protocol model (Limiter) checked by TLC + TLC trace validation of recorded executions of real flow-graph nodes against FlowAbs',
    design='4 (C15)')
 CHECKS['C17'] = dict(
